@@ -17,7 +17,7 @@ RULE = ("(a) random programs x wild renderings (blank lines, comment lines, trai
         "raw line breaks inside quoted strings) x eol in {LF, CRLF, CR} x parser histories of 0-3 earlier texts; (b) every fault kind "
         "x random position in random valid EEMS models, via API and CLI; distinct by (eol, history kinds, node kinds) / (fault kind, "
         "command, parameter, spread)")
-REQUIRED_COUNTERS = ["tree_nodes_compared", "histories_with_reuse", "fault_linenos_checked", "cli_marker_lines_checked", "eems2_fault_linenos_checked", "runtime_fault_linenos_checked", "lineless_runtime_errors_checked", "cycle_error_linenos_checked", "cli_runs_on_a_path_used_before"]
+REQUIRED_COUNTERS = ["tree_nodes_compared", "histories_with_reuse", "fault_linenos_checked", "cli_marker_lines_checked", "eems2_fault_linenos_checked", "runtime_fault_linenos_checked", "lineless_runtime_errors_checked", "cycle_error_linenos_checked", "cli_runs_on_a_path_used_before", "user_library_fault_linenos_checked"]
 ASSUMPTIONS = ["the head 'Result = Command(' is kept on one line (the statement says where a node starts; the code reports the command-name token)",
                "for a fault inside a multi-line list both the argument's first line and the element's own line are accepted",
                "errors raised during execution with lineno None are not judged", "CR-only texts are generated without comments"]
@@ -76,6 +76,8 @@ def cases(ctx):
         yield {"kind": "lineless", "fault": sorted(LINELESS)[i % len(LINELESS)], "rseed": rng.randrange(10 ** 9)}
     for i in range(ctx.n(60, 3000)):
         yield {"kind": "cycle", "rseed": rng.randrange(10 ** 9)}
+    for i in range(ctx.n(40, 2000)):
+        yield {"kind": "userfault", "fault": ["scalar-out", "raise-syntax", "raise-json", "raise-plain", "scalar-out"][i % 5], "rseed": rng.randrange(10 ** 9)}
     for i in range(ctx.n(30, 600)):
         yield {"kind": "v2fault", "fault": ["unknown-command", "missing-param", "duplicate-result"][i % 3], "rseed": rng.randrange(10 ** 9)}
     req = None
@@ -465,6 +467,63 @@ def run_lineless(ctx, case):
         ctx.fail("runtime-fault:%s:line-of-another-command" % kind, {"got": got, "own_command_lines": sorted(own), "source_line": lines[got - 1] if 0 < got <= len(lines) else None, "text": text})
 
 
+def run_userfault(ctx, case):
+    """Commands of a user's library: one whose actual result does not match its declared output (reported when a consumer is
+    validated after it finished), and ones that fail while executing with ordinary Python exceptions that carry a `lineno`
+    of their own. The error's line is the consumer's argument line / the failing command's own line."""
+    from mpilot.program import Program
+    rng = random.Random(case["rseed"])
+    d = ctx.scratch()
+    with open(os.path.join(d, "in.csv"), "w") as f:
+        f.write("X0\n1\n2\n3\n5\n")
+    kind = case["fault"]
+    blocks = [['A = EEMSRead(InFileName = "in.csv", InFieldName = "X0")']]
+    if kind == "scalar-out":
+        blocks.append(['T = ScalarOut(', '    InFieldName = A', ')'])
+        # two leaves share the faulty producer: the second is validated after the producer has finished
+        blocks.append(['C1 = Copy(', '', '    InFieldName = T', ')'])
+        blocks.append(['C2 = Sum(', '    InFieldNames = [', '        A, T', '    ]', ')'])
+        want, own = ("ResultTypeNotValid", "ParameterNotValid"), ("C1", "C2")
+    else:
+        k = {"raise-syntax": "syntax", "raise-json": "json", "raise-plain": "plain"}[kind]
+        blocks.append(['R = Raiser(', '', '    Kind = %s,' % k, '    InFieldName = A', ')'])
+        blocks.append(['U = Copy(InFieldName = R)'])
+        want, own = ("UnexpectedError",), ("R",)
+    for _ in range(rng.randint(0, 3)):
+        blocks.append(["# filler", ""] if rng.random() < 0.5 else [""])
+    rng.shuffle(blocks)
+    lines = [ln for b in blocks for ln in b]
+    if rng.random() < 0.5:
+        lines = ["# model", "", ""] + lines
+    text = "\n".join(lines)
+    ok_lines = set()
+    for nm in own:
+        start = [k_ + 1 for k_, ln in enumerate(lines) if ln.startswith(nm + " = ")][0]
+        n_ = 1
+        while not lines[start - 1 + n_ - 1].rstrip().endswith(")"):
+            n_ += 1
+        ok_lines |= set(range(start, start + n_))
+    ctx.feature(("userfault", kind))
+    err = None
+    try:
+        p = Program.from_source(text, libraries=arr.CSV_LIBS + ("usercmds",), working_dir=d)
+        p.run()
+        if kind == "scalar-out":
+            p.run()
+    except Exception as e:
+        err = e
+    if err is None or type(err).__name__ not in want:
+        ctx.dontcare("user-library fault %s gave %s" % (kind, type(err).__name__ if err else "no error"))
+        return
+    ctx.count("runtime_fault_linenos_checked")
+    ctx.count("user_library_fault_linenos_checked")
+    got = getattr(err, "lineno", None)
+    if got is not None and got not in ok_lines:
+        ctx.fail("runtime-fault:%s:line-of-another-command" % kind, {"got": got, "own_lines": sorted(ok_lines), "source_line": lines[got - 1] if 0 < got <= len(lines) else None, "text": text})
+    elif got is None and kind != "scalar-out":
+        ctx.fail("runtime-fault:%s:lineno-missing" % kind, {"own_lines": sorted(ok_lines), "text": text})
+
+
 def run_cycle(ctx, case):
     """Circular references among some commands, with other commands (listed anywhere, also first) that merely use a member of
     the cycle or are used by one: the recursive-model error names a command that is on a cycle."""
@@ -557,6 +616,8 @@ def run_case(ctx, case):
         return run_lineless(ctx, case)
     if case["kind"] == "cycle":
         return run_cycle(ctx, case)
+    if case["kind"] == "userfault":
+        return run_userfault(ctx, case)
     if case["kind"] == "v2fault":
         return run_v2fault(ctx, case)
     return run_fault(ctx, case)
